@@ -4,8 +4,10 @@
 Tie: `pair` drives a real RenderIterator with the given cache setting and one with caching off
 through the same history (test renderable `TR` of harness/c08.py) and compares, with the Lean
 model's paired run, the per-operation observations of both and the `_render_` call log;
-`ipair` does the same for `ImageIterator` over a real `BlockImage` of an animated GIF (frames
-identified by rendering each (frame, width) independently), counting `_render_image` calls;
+`ipair` does the same for `ImageIterator` over a real `BlockImage` / `KittyImage` / `ITerm2Image` of an
+animated GIF, with format specs that carry style parts (+W/+L, z<N>, m0/1, c0-9) and image-size changes
+after the first loop (frames identified byte for byte by rendering each (frame, width) independently with
+the same spec), counting `_render_image` calls;
 `draw` goes through the public drawing path — `Renderable.draw()` → `_animate_` — of a counting
 renderable in virtual time (the animation's `sleep` is a hook that raises KeyboardInterrupt at its
 m-th call; loops ∈ {negative = infinite, 1, 2, 3}, every cache form) and compares the per-frame
@@ -35,14 +37,22 @@ from c08 import TR, case_line, gen_case, run_real, toks  # noqa: E402
 from PIL import Image  # noqa: E402
 
 import term_image  # noqa: E402
-from term_image.image import BlockImage, ImageIterator  # noqa: E402
+from term_image.image import BlockImage, ImageIterator, ITerm2Image, KittyImage  # noqa: E402
 from term_image.render import RenderIterator  # noqa: E402
 from term_image.renderable import FrameCount, Renderable  # noqa: E402
 
 WIDTHS = [2, 3, 4, 6]
 COLOURS = [(255, 0, 0), (0, 255, 0), (0, 0, 255), (255, 255, 0), (255, 255, 255), (0, 0, 0), (0, 255, 255)]
 _GIFS: dict[int, bytes] = {}
-_EXPECT: dict[int, dict[str, tuple[int, int]]] = {}
+_EXPECT: dict[tuple, dict[str, tuple[int, int]]] = {}
+CLASSES = {"block": BlockImage, "kitty": KittyImage, "iterm2": ITerm2Image}
+# format specs for the iterator: [format part]+[style part]; the style part (render method +W/+L, kitty z-index,
+# `m` mix / `c` compression) reaches `_render_image` as `**style_args` on every render the iterator makes
+SPECS = {
+    "block": ["", "", "<9.^4#"],
+    "kitty": ["", "+W", "+L", "+z5", "+m1c9", "+Wz-7m1c0", "+c0", "+Lz3m0c5", "1.1+W", "<9.^4#+z2"],
+    "iterm2": ["", "+W", "+L", "+m1", "+Wm1c0", "+c3", "+Lc9", "1.1+W", ">8._5#+Wm1c0"],
+}
 HASHES: dict[int, tuple[int, int]] = {}
 
 
@@ -62,21 +72,25 @@ def gif_bytes(n: int) -> bytes:
     return _GIFS[n]
 
 
-def mk_image(n: int, width: int) -> BlockImage:
+def mk_image(n: int, width: int, cls: str = "block"):
     env.reset_env()
+    env.set_env(cell_size=None if cls == "block" else (4, 8))
     term_image.set_cell_ratio(0.5)
-    return BlockImage(Image.open(io.BytesIO(gif_bytes(n))), width=width)
+    klass = CLASSES[cls]
+    if cls != "block":
+        klass.forced_support = True  # controlled environment: no supporting terminal needed
+    return klass(Image.open(io.BytesIO(gif_bytes(n))), width=width)
 
 
-def expect_table(n: int) -> dict[str, tuple[int, int]]:
-    """render output of (frame k, width w), produced without any iterator → (k, w)"""
-    if n not in _EXPECT:
+def expect_table(n: int, cls: str = "block", spec: str = "") -> dict[str, tuple[int, int]]:
+    """render output of (frame k, width w) under `spec`, produced without any iterator → (k, w)"""
+    if (n, cls, spec) not in _EXPECT:
         tab = {}
         for w in WIDTHS:
-            img = mk_image(n, w)
+            img = mk_image(n, w, cls)
             for k in range(n):
                 img.seek(k)
-                s = format(img, "")
+                s = format(img, spec)
                 if s in tab and tab[s] != (k, w):
                     raise RuntimeError("test frames are not distinguishable")
                 tab[s] = (k, w)
@@ -86,13 +100,14 @@ def expect_table(n: int) -> dict[str, tuple[int, int]]:
             if h in HASHES and HASHES[h] != tuple(rs):
                 raise RuntimeError(f"hash collision on render sizes {HASHES[h]} and {tuple(rs)}")
             HASHES[h] = tuple(rs)
-        _EXPECT[n] = tab
-    return _EXPECT[n]
+        _EXPECT[(n, cls, spec)] = tab
+    return _EXPECT[(n, cls, spec)]
 
 
-def run_image_iter(n, rep, cache, width, seekpos, ops) -> str:
-    tab = expect_table(n) if n >= 2 else {}
-    img = mk_image(n, width)
+def run_image_iter(n, rep, cache, width, seekpos, ops, cls="block", spec="") -> str:
+    import zlib
+    tab = expect_table(n, cls, spec) if n >= 2 else {}
+    img = mk_image(n, width, cls)
     if seekpos:
         img.seek(seekpos)
     count = [0]
@@ -106,14 +121,16 @@ def run_image_iter(n, rep, cache, width, seekpos, ops) -> str:
     img._render_image = counting
     cached = bool(cache[1]) if cache[0] == "b" else cache[1]
     try:
-        it = ImageIterator(img, rep, "", cached)
+        it = ImageIterator(img, rep, spec, cached)
     except Exception as e:  # noqa: BLE001
         return "err " + type(e).__name__
     obs = []
     for op in ops:
         try:
             if op[0] == "next":
-                k, w = tab.get(next(it), (-1, -1))
+                frame = next(it)
+                # a frame that is not `format(image, spec)` of any (frame, width): -1 and its checksum
+                k, w = tab.get(frame) or (-1, zlib.crc32(frame.encode()))
                 res = f"f {k} {w}"
             elif op[0] == "seek":
                 it.seek(op[1])
@@ -325,10 +342,21 @@ class C09(Property):
                 ops.append(["size", rng.choice(WIDTHS)])
             else:
                 ops.append(["close"])
+        cls = rng.choice(["block", "kitty", "kitty", "iterm2", "iterm2"])
+        spec = rng.choice(SPECS[cls])
+        if cls != "block" and not malformed and rng.random() < 0.5:
+            # the image size changes after the frames were cached (first loop done), then frames are revisited
+            ops = [["next"]] * (n + rng.choice([0, 1, 2]))
+            for _ in range(rng.choice([1, 2, 3])):
+                ops += [["size", rng.choice(WIDTHS)]] + ([["seek", rng.randrange(n)]] if rng.random() < 0.3 else []) \
+                    + [["next"]] * rng.choice([1, n, n + 1])
+            rep = rng.choice([2, 3, -1, -1]) if rep == 1 else rep
         line = f"ipair {n} {rep} {toks(cache)} {width} {seekpos} {len(ops)}" + "".join(" " + toks(o) for o in ops)
-        d = {"n": n, "rep": rep, "cache": cache, "width": width, "seekpos": seekpos, "ops": ops}
+        d = {"n": n, "rep": rep, "cache": cache, "width": width, "seekpos": seekpos, "ops": ops, "cls": cls, "spec": spec}
         nexts = sum(1 for o in ops if o[0] == "next")
-        return Case(line, d, "ipair" if not malformed else "ipair-malformed", nexts > n and rep != 1)
+        kind = "ipair-malformed" if malformed else "ipair" if cls == "block" else \
+            f"ipair-{cls}" + ("+style" if "+" in spec else "")
+        return Case(line, d, kind, nexts > n and rep != 1)
 
     def gen_hashy(self, rng, tier):
         """paired cached/uncached histories whose render-arg fields, durations and sizes come from a
@@ -410,8 +438,9 @@ class C09(Property):
         if op == "pair":
             return run_pair_real(d["cfg"], d["ops"])[0]
         if op == "ipair":
-            a = run_image_iter(d["n"], d["rep"], d["cache"], d["width"], d["seekpos"], d["ops"])
-            b = run_image_iter(d["n"], d["rep"], ["b", 0], d["width"], d["seekpos"], d["ops"])
+            cls, spec = d.get("cls", "block"), d.get("spec", "")
+            a = run_image_iter(d["n"], d["rep"], d["cache"], d["width"], d["seekpos"], d["ops"], cls, spec)
+            b = run_image_iter(d["n"], d["rep"], ["b", 0], d["width"], d["seekpos"], d["ops"], cls, spec)
             return a + " || " + b
         if op == "draw":
             return run_draw_real(d["n"], d["loops"], d["cache"], d["m"])[0]
@@ -481,7 +510,8 @@ class C09(Property):
                 i = next((j for j in range(min(len(fa), len(fb))) if fa[j] != fb[j]), min(len(fa), len(fb)))
                 opn = d["ops"][i][0] if i < len(d["ops"]) else "?"
                 return Failure(f"image-iterator/cached-differs/{opn}",
-                               f"ImageIterator cached={toks(d['cache'])} vs uncached differ at op #{i} {opn}: "
+                               f"ImageIterator({CLASSES[d.get('cls', 'block')].__name__}, repeat={d['rep']}, "
+                               f"format_spec={d.get('spec', '')!r}) cached={toks(d['cache'])} vs uncached differ at op #{i} {opn}: "
                                f"`{fa[i] if i < len(fa) else None}` vs `{fb[i] if i < len(fb) else None}`")
             return None
         return None
@@ -541,14 +571,15 @@ class C09(Property):
                 ops = [["next"]] * (n + 1)
                 for w in wseq:
                     ops += [["size", w]] + [["next"]] * n
-                d = {"n": n, "rep": -1, "cache": ["b", 1], "width": 2, "seekpos": 0, "ops": ops}
-                line = f"ipair {n} -1 b 1 2 0 {len(ops)}" + "".join(" " + toks(o) for o in ops)
-                case = Case(line, d, "search")
-                f = self.oracle(case, self.impl(case))
-                if f and f.key not in seen:
-                    seen.add(f.key)
-                    f.case = case
-                    out.append(f)
+                for cls, spec in (("block", ""), ("kitty", "+Wz-7m1c0"), ("kitty", "+m1c9"), ("iterm2", "+Wm1c0"), ("iterm2", "+c3")):
+                    d = {"n": n, "rep": -1, "cache": ["b", 1], "width": 2, "seekpos": 0, "ops": ops, "cls": cls, "spec": spec}
+                    line = f"ipair {n} -1 b 1 2 0 {len(ops)}" + "".join(" " + toks(o) for o in ops)
+                    case = Case(line, d, "search")
+                    f = self.oracle(case, self.impl(case))
+                    if f and f"{f.key}/{cls}" not in seen:
+                        seen.add(f"{f.key}/{cls}")
+                        f.case = case
+                        out.append(f)
         return out
 
     def extra_checks(self, rng, tier, ev):
